@@ -9,10 +9,12 @@ import (
 )
 
 // runPath executes one path of a root, steered by prefix.
-func runPath(P *Prog, sol, alt *Solver, root Root, prefix []Dec, wantWitness bool, trace bool) (pr *PathResult) {
+func runPath(P *Prog, sol, alt *Solver, root Root, prefix []Dec, wantWitness bool, covered map[string]bool, trace bool) (pr *PathResult) {
 	pr = &PathResult{}
 	e := &Exec{P: P, ctx: NewCtx(), sol: sol, alt: alt, prefix: prefix,
 		pcSet:     map[*Term]bool{},
+		subst:     map[*Term]*Term{},
+		normMemo:  map[*Term]*Term{},
 		globals:   map[*ssa.Global]*Value{},
 		strCache:  map[string]*Backing{},
 		onceDone:  map[*Value]bool{},
@@ -69,7 +71,13 @@ func runPath(P *Prog, sol, alt *Solver, root Root, prefix []Dec, wantWitness boo
 		}
 		e.call(nil, fn, args)
 		// normal completion: witness
-		if wantWitness || len(e.covers) > 0 {
+		needCover := false
+		for _, l := range e.covers {
+			if !covered[l] {
+				needCover = true
+			}
+		}
+		if wantWitness || needCover {
 			m := e.getModel()
 			w := &Witness{Nondet: e.tapeValues(m), Chooses: append([]int64{}, e.chooses...), Decs: append([]Dec{}, e.decs...)}
 			for _, o := range e.observes {
